@@ -10,8 +10,11 @@ package main
 // Correspondence with the Lean model (suites dm-hl, dm-dec, dm-la): see c02_model.go.
 
 import (
+	"encoding/hex"
 	"fmt"
 	"image"
+	"os"
+	"path/filepath"
 	"sort"
 	"strings"
 	"sync/atomic"
@@ -270,20 +273,22 @@ func c02Range(lo, hi int) []byte {
 }
 
 var c02Classes = [][]byte{
-	[]byte(c02Digits),                                   // 0 digits
-	[]byte(c02Upper + c02Digits + " "),                  // 1 C40-native
-	[]byte(c02Lower + c02Digits + " "),                  // 2 Text-native
+	[]byte(c02Digits),                                    // 0 digits
+	[]byte(c02Upper + c02Digits + " "),                   // 1 C40-native
+	[]byte(c02Lower + c02Digits + " "),                   // 2 Text-native
 	[]byte(c02Upper + c02Digits + " " + "\r*>" + "\r*>"), // 3 X12-native incl. separators
-	c02Range(0x20, 0x5E),                                // 4 EDIFACT-native
-	c02Range(0x00, 0x1F),                                // 5 control characters
-	c02Range(0x80, 0xFF),                                // 6 extended
-	c02Range(0x00, 0x7F),                                // 7 any ASCII (incl. 0x5F-0x7F: shift-3 set)
-	[]byte(c02Lower),                                    // 8 lower only
-	[]byte(c02Upper),                                    // 9 upper only
-	c02Range(0x5F, 0x7F),                                // 10 shift-3 / punctuation
+	c02Range(0x20, 0x5E),                                 // 4 EDIFACT-native
+	c02Range(0x00, 0x1F),                                 // 5 control characters
+	c02Range(0x80, 0xFF),                                 // 6 extended
+	c02Range(0x00, 0x7F),                                 // 7 any ASCII (incl. 0x5F-0x7F: shift-3 set)
+	[]byte(c02Lower),                                     // 8 lower only
+	[]byte(c02Upper),                                     // 9 upper only
+	c02Range(0x5F, 0x7F),                                 // 10 shift-3 / punctuation
+	append(c02Range(0xC1, 0xDA), append(c02Range(0xB0, 0xB9), 0xA0)...), // 11 128 + C40-native (three C40 values each)
+	c02Range(0xE1, 0xFA), // 12 128 + lower case (three Text values each)
 }
 
-var c02ClassNames = []string{"digits", "c40", "text", "x12", "edifact", "control", "extended", "ascii", "lower", "upper", "shift3"}
+var c02ClassNames = []string{"digits", "c40", "text", "x12", "edifact", "control", "extended", "ascii", "lower", "upper", "shift3", "ext-c40", "ext-text"}
 
 func c02Run(r *Rng, class, n int) []byte {
 	al := c02Classes[class]
@@ -329,7 +334,7 @@ func c02GenText(r *Rng, target c02Size) []byte {
 			est += float64(n) * 0.70
 		case 4:
 			est += float64(n) * 0.78
-		case 6:
+		case 6, 11, 12:
 			est += float64(n) * 1.4
 		default:
 			est += float64(n) * 1.1
@@ -442,6 +447,37 @@ func c02ClassifyRead(text, got string, e error) string {
 	return ""
 }
 
+// c02AsciiLen is the length of the plain ASCII encodation: digit pairs 1, extended characters 2, others 1 codeword.
+func c02AsciiLen(m []byte) int {
+	n := 0
+	for i := 0; i < len(m); {
+		switch {
+		case i+1 < len(m) && m[i] >= '0' && m[i] <= '9' && m[i+1] >= '0' && m[i+1] <= '9':
+			n, i = n+1, i+2
+		case m[i] >= 128:
+			n, i = n+2, i+1
+		default:
+			n, i = n+1, i+1
+		}
+	}
+	return n
+}
+
+// c02ErrClass gives refusals of encodable text a stable sub-key by the kind of failure.
+func c02ErrClass(msg string) string {
+	switch {
+	case strings.Contains(msg, "Illegal character"):
+		return "-illegal-character"
+	case strings.Contains(msg, "Unexpected case"):
+		return "-unexpected-case"
+	case strings.Contains(msg, "Can't find a symbol arrangement"):
+		return "-no-symbol"
+	case strings.Contains(msg, "Message length not in valid ranges"):
+		return "-base256-length"
+	}
+	return ""
+}
+
 func c02Trunc(s string) string {
 	if len(s) > 160 {
 		return s[:160] + "..."
@@ -463,9 +499,11 @@ func c02Eval(k c02Case, wd time.Duration) (o c02Outcome) {
 
 	// --- codeword level, no size hints: un-padded length => does the text fit? ---
 	var cwU []byte
+	hlUMsg := ""
 	hlU := SafeT(wd, func() string {
 		cw, e := dmenc.EncodeHighLevel(text, dmenc.SymbolShapeHint_FORCE_NONE, nil, nil)
 		if e != nil {
+			hlUMsg = fmt.Sprintf("%v", e)
 			return "ERR:" + errKind(e)
 		}
 		cwU = cw
@@ -474,7 +512,7 @@ func c02Eval(k c02Case, wd time.Duration) (o c02Outcome) {
 	if hlU == "TIMEOUT" {
 		atomic.AddInt32(&c02Timeouts, 1)
 		o.timeout = true
-		addV("dm-encode-timeout", "EncodeHighLevel(text, none, nil, nil) did not return within the watchdog")
+		addV("dm-encode-hang", "EncodeHighLevel(text, none, nil, nil) did not return within the watchdog")
 		o.hlGo = "TIMEOUT"
 		return
 	}
@@ -505,7 +543,7 @@ func c02Eval(k c02Case, wd time.Duration) (o c02Outcome) {
 	case o.hlGo == "TIMEOUT":
 		atomic.AddInt32(&c02Timeouts, 1)
 		o.timeout = true
-		addV("dm-encode-timeout", "EncodeHighLevel under hints did not return within the watchdog")
+		addV("dm-encode-hang", "EncodeHighLevel under hints did not return within the watchdog")
 		return
 	case o.hlGo == "PANIC":
 		addV("dm-encode-panic", "EncodeHighLevel under hints panicked")
@@ -545,9 +583,11 @@ func c02Eval(k c02Case, wd time.Duration) (o c02Outcome) {
 
 	// --- whole symbol ---
 	var bm *gozxing.BitMatrix
+	wrMsg := ""
 	wr := SafeT(wd, func() string {
 		m, e := datamatrix.NewDataMatrixWriter().Encode(text, gozxing.BarcodeFormat_DATA_MATRIX, 0, 0, k.Hints.hintMap())
 		if e != nil {
+			wrMsg = fmt.Sprintf("%v", e)
 			return "ERR:" + errKind(e)
 		}
 		bm = m
@@ -557,24 +597,35 @@ func c02Eval(k c02Case, wd time.Duration) (o c02Outcome) {
 	case "TIMEOUT":
 		atomic.AddInt32(&c02Timeouts, 1)
 		o.timeout = true
-		addV("dm-encode-timeout", "DataMatrixWriter.Encode did not return within the watchdog")
+		addV("dm-encode-hang", "DataMatrixWriter.Encode did not return within the watchdog")
 		return
 	case "PANIC":
 		addV("dm-encode-panic", "DataMatrixWriter.Encode panicked")
 		return
 	}
-	fits := nU >= 0 && nU <= k.Hints.maxCap()
-	if nU >= 0 {
-		if fits {
-			note("fits:yes")
-		} else {
-			note("fits:no")
+	// "fits": the encoder's own encoding of the text without size hints (nU codewords before padding) is no longer
+	// than the largest admissible symbol's capacity.  The encoder is a heuristic (ISO 16022 annex P), so a shorter
+	// encoding that it does not find is not demanded.  Only when the un-hinted encoding itself fails is the plain
+	// ASCII encodation (digit pairs 1, extended characters 2 codewords) used as the witness that the text fits.
+	// If that failure is itself about capacity (the heuristic needs more than 1558 codewords) nothing is demanded.
+	nA := c02AsciiLen(k.Msg)
+	need := nU
+	if nU < 0 {
+		need = nA
+		if cl := c02ErrClass(hlUMsg); cl == "-no-symbol" || cl == "-base256-length" {
+			need = 1 << 30
 		}
+	}
+	fits := need <= k.Hints.maxCap()
+	if fits {
+		note("fits:yes")
+	} else {
+		note("fits:no")
 	}
 	if bm == nil {
 		note("write:" + wr)
 		if fits {
-			addV("dm-fits-refused", fmt.Sprintf("text needs %d codewords (un-hinted encoding), largest admissible symbol holds %d, writer returned %s", nU, k.Hints.maxCap(), wr))
+			addV("dm-fits-refused"+c02ErrClass(wrMsg), fmt.Sprintf("error %q; text needs at most %d codewords (un-hinted encoding: %d, plain ASCII encodation: %d), largest admissible symbol holds %d, writer returned %s", c02Trunc(wrMsg), need, nU, nA, k.Hints.maxCap(), wr))
 		}
 		return
 	}
@@ -676,10 +727,12 @@ func runC02(c *Ctx) {
 		}
 		cases = append(cases, k)
 	}
-	r := c.Rng
+	r := c.Rng.Fork() // fw.go seeds consecutive VERIF_SEEDs one splitmix step apart: fork to decorrelate
 	noH := c02Hints{0, -1, -1, -1, -1}
 	// 0. corpus: witnesses of defects found earlier (DESIGN §8 D5, D6, D16 and later ones)
-	for _, w := range c02Corpus {
+	corpus := c02LoadCorpus()
+	c.NoteN("corpus-witnesses", len(corpus))
+	for _, w := range corpus {
 		add([]byte(w.msg), w.h, r)
 	}
 	// 1. exhaustive short strings
@@ -718,13 +771,60 @@ func runC02(c *Ctx) {
 		c.Note("nonlatin1:" + out)
 	}
 	// 4. generated mixtures steered to every symbol size
-	nGen := c.Pick(4000, 200000)
+	nGen := c.Pick(24000, 200000)
 	for i := 0; i < nGen; i++ {
 		target := c02Sizes[i%len(c02Sizes)]
 		if target.Cap > 600 && i%3 != 0 && !c.Thorough {
 			target = c02Sizes[r.Intn(15)] // the four biggest symbols are expensive: every third round only
 		}
 		add(c02GenText(r, target), c02GenHints(r), r)
+	}
+	// 5. length sweeps across a capacity boundary: a base text a few codewords short of a symbol's capacity,
+	//    then every one of the next 14 one-character extensions (exercises each end-of-data branch at exact fit, fit-1, fit+1)
+	nSweep := c.Pick(1200, 6000)
+	for i := 0; i < nSweep; i++ {
+		target := c02Sizes[r.Intn(len(c02Sizes))]
+		if target.Cap > 210 && !r.Chance(0.15) {
+			target = c02Sizes[r.Intn(15)]
+		}
+		cl := r.Intn(len(c02Classes))
+		per := 1.0
+		switch cl {
+		case 0:
+			per = 0.5
+		case 1, 2, 3, 8, 9:
+			per = 0.68
+		case 4:
+			per = 0.76
+		case 6, 11, 12:
+			per = 1.02
+		}
+		n := int(float64(target.Cap-3) / per)
+		if n < 1 {
+			n = 1
+		}
+		var base []byte
+		if r.Chance(0.5) { // homogeneous body, otherwise a mixed head and a homogeneous tail
+			base = c02Run(r, cl, n)
+		} else {
+			head := c02GenText(r, c02Size{Cap: target.Cap / 2})
+			if len(head) > n {
+				head = head[:n]
+			}
+			base = append(head, c02Run(r, cl, n-len(head))...)
+		}
+		h := noH
+		if r.Chance(0.3) {
+			h = c02GenHints(r)
+		}
+		for j := 0; j < 14; j++ {
+			add(append([]byte(nil), base...), h, r)
+			ecl := cl
+			if r.Chance(0.2) {
+				ecl = r.Intn(len(c02Classes))
+			}
+			base = append(base, c02Run(r, ecl, 1)...)
+		}
 	}
 	// run
 	outs := make([]c02Outcome, len(cases))
@@ -767,5 +867,39 @@ type c02Witness struct {
 	h   c02Hints
 }
 
-var c02Corpus = []c02Witness{
+func c02ParseDim(s string) (int, int) {
+	var w, h int
+	if _, e := fmt.Sscanf(s, "%dx%d", &w, &h); e != nil {
+		return -1, -1
+	}
+	return w, h
+}
+
+// c02LoadCorpus reads corpus/C02/witnesses.txt (next to the harness directory).
+func c02LoadCorpus() []c02Witness {
+	var ws []c02Witness
+	exe, e := os.Executable()
+	if e != nil {
+		return ws
+	}
+	b, e := os.ReadFile(filepath.Join(filepath.Dir(exe), "..", "corpus", "C02", "witnesses.txt"))
+	if e != nil {
+		return ws
+	}
+	for _, l := range strings.Split(string(b), "\n") {
+		f := strings.Fields(l)
+		if len(f) != 4 || strings.HasPrefix(l, "#") {
+			continue
+		}
+		m, e := hex.DecodeString(f[0])
+		if e != nil {
+			continue
+		}
+		h := c02Hints{0, -1, -1, -1, -1}
+		fmt.Sscanf(f[1], "%d", &h.Shape)
+		h.MinW, h.MinH = c02ParseDim(f[2])
+		h.MaxW, h.MaxH = c02ParseDim(f[3])
+		ws = append(ws, c02Witness{string(m), h})
+	}
+	return ws
 }
